@@ -52,7 +52,7 @@ func init() {
 }
 
 func runFoGeneric(b *Batch, prop string) {
-	n := b.Pick(480, 24000) / b.NBatches
+	n := b.Pick(map[string]int{"C01": 4800, "C02": 1600, "C04": 4800}[prop], map[string]int{"C01": 160000, "C02": 48000, "C04": 160000}[prop]) / b.NBatches
 	for i := 0; i < n; i++ {
 		if b.Skip(i) {
 			continue
